@@ -59,7 +59,7 @@ Lemma quoted_is_string c ev :
   deser_scalar c TgAny ev = RStr (sv_value ev) /\
   deser_scalar c TgStr ev = RStr (sv_value ev) /\
   deser_scalar c (TgOption TgString) ev =
-    (if match sv_value ev with [] => negb (is_quoted (sv_style ev)) | _ => false end
+    (if negb (sv_tag ev =? TAG_String) && match sv_value ev with [] => negb (is_quoted (sv_style ev)) | _ => false end
      then RNone else RSome (RStr (sv_value ev))).
 Proof.
   intros Hst Htag. destruct ev as [value st tag]. cbn [sv_style sv_tag sv_value] in *.
@@ -68,6 +68,55 @@ Proof.
     destruct Htag as [->|[->| ->]];
     (repeat split); destruct value as [|v0 value]; destruct ns; destruct ib; vm_compute; reflexivity.
 Qed.
+
+Lemma option_unfold c t ev :
+  deser_scalar c (TgOption t) ev =
+  if sv_tag ev =? TAG_Null then RNone
+  else if negb (sv_tag ev =? TAG_String) && scalar_is_nullish_for_option (sv_value ev) (sv_style ev) then RNone
+  else match deser_scalar c t ev with RErr e => RErr e | r => RSome r end.
+Proof. reflexivity. Qed.
+
+(* A scalar tagged !!str is the string itself -- never null, number or bool -- for string, optional and
+   untyped targets, whatever its text and style and under every option vector (F60, fixed). *)
+Lemma str_tagged_is_never_null c ev :
+  sv_tag ev = TAG_String ->
+  deser_scalar c TgString ev = RStr (sv_value ev) /\
+  deser_scalar c TgStr ev = RStr (sv_value ev) /\
+  deser_scalar c TgAny ev = RStr (sv_value ev) /\
+  deser_scalar c (TgOption TgString) ev = RSome (RStr (sv_value ev)) /\
+  deser_scalar c (TgOption TgAny) ev = RSome (RStr (sv_value ev)).
+Proof.
+  intros Htag. destruct ev as [value st tag]. cbn [sv_style sv_tag sv_value] in *. subst tag.
+  destruct c as [lo sb ib ns].
+  assert (HS : deser_scalar (mkCfg lo sb ib ns) TgString (mkScalar value st TAG_String) = RStr value).
+  { cbn [deser_scalar sv_tag sv_style sv_value].
+    replace (TAG_String =? TAG_String) with true by reflexivity.
+    replace (TAG_String =? TAG_Null) with false by reflexivity.
+    replace (TAG_String =? TAG_Binary) with false by reflexivity.
+    rewrite !Bool.andb_false_r. cbn [negb andb orb].
+    destruct ib; reflexivity. }
+  assert (HA : deser_scalar (mkCfg lo sb ib ns) TgAny (mkScalar value st TAG_String) = RStr value).
+  { cbn [deser_scalar]. unfold deserialize_any_scalar. cbn [sv_tag sv_style sv_value].
+    replace (TAG_String =? TAG_String) with true by reflexivity.
+    replace (TAG_String =? TAG_Null) with false by reflexivity.
+    replace (TAG_String =? TAG_Binary) with false by reflexivity.
+    cbn [negb andb orb]. rewrite !Bool.orb_true_r. cbn [andb].
+    destruct ib; reflexivity. }
+  repeat split.
+  - exact HS.
+  - cbn [deser_scalar sv_tag sv_style sv_value].
+    replace (TAG_String =? TAG_String) with true by reflexivity.
+    rewrite Bool.andb_false_r. reflexivity.
+  - exact HA.
+  - rewrite option_unfold, HS. reflexivity.
+  - rewrite option_unfold, HA. reflexivity.
+Qed.
+
+Example str_tagged_example :
+  deser_scalar (mkCfg false false false false) (TgOption TgString) (mkScalar s_null Plain TAG_String) = RSome (RStr s_null) /\
+  deser_scalar (mkCfg false false false false) TgAny (mkScalar [126] Plain TAG_String) = RStr [126] /\
+  deser_scalar (mkCfg false false false false) TgAny (mkScalar [126] Plain TAG_None) = RUnit.
+Proof. repeat split; reflexivity. Qed.
 
 (* Non-vacuity: a concrete quoted scalar that looks like null/number/bool *)
 Example quoted_is_string_example :
